@@ -65,13 +65,14 @@ VARIABLES
   failed,    \* [T -> BOOLEAN] last execution failed
   word,      \* [T -> [T -> [EK -> {"none","ok","inv"}]]] latest word t received from d
   proc,      \* [T -> 0..2] live shells of t (build shell or service instances)
-  viol       \* set of names of violated step properties (monitors)
+  viol,      \* set of names of violated step properties (monitors)
+  stale      \* [T -> SUBSET T] builds (reached through aggregates) that completed a re-run after t's current run was decided
 
 cfgVars == <<kind, deps, roots, slow, inh>>
 actVars == <<st, inbox, pend, out, invalSlot, termSlot, launched, alive>>
 rootVars == <<hold, rootPhase, reqIdx, unavB, unavS, svcRoots, termRecv, exitStatus, errTarget>>
 envVars == <<signalled, sigUsed, inVer, gen, rec, cap, saw, outOf, notif, nChanges>>
-obsVars == <<nStart, nSkip, ready, failed, word, proc, viol>>
+obsVars == <<nStart, nSkip, ready, failed, word, proc, viol, stale>>
 vars == <<cfgVars, actVars, rootVars, envVars, obsVars>>
 
 NoMsg == [dest |-> -2]
@@ -253,6 +254,7 @@ ObsRecv(t, m, r) ==
   /\ failed' = IF r.svcFail THEN [failed EXCEPT ![t] = TRUE]
                ELSE IF r.started THEN [failed EXCEPT ![t] = FALSE] ELSE failed
   /\ proc' = IF r.started THEN [proc EXCEPT ![t] = 1] ELSE IF r.svcFail THEN [proc EXCEPT ![t] = 0] ELSE proc
+  /\ stale' = IF r.started \/ r.begun THEN [stale EXCEPT ![t] = {}] ELSE stale
 
 \* step monitors (C01, C07): evaluated on the pre-state plus the word just received
 WordAfter(t, m) == IF m.ty \in {"ok", "inv"} THEN [word[t] EXCEPT ![m.from][m.k] = m.ty] ELSE word[t]
@@ -305,7 +307,7 @@ RecvTerm(t) ==
           /\ alive' = [alive EXCEPT ![t] = FALSE]
           /\ proc' = IF kind[t] = "s" THEN [proc EXCEPT ![t] = 0] ELSE proc
   /\ UNCHANGED <<cfgVars, inbox, pend, out, invalSlot, launched, rootVars, envVars,
-                 nStart, nSkip, ready, failed, word, viol>>
+                 nStart, nSkip, ready, failed, word, viol, stale>>
 
 (* --- the build future (incremental::run around builder::build_target), polled by the same select! --- *)
 
@@ -336,7 +338,7 @@ BuildSpawn(t) ==
         /\ UNCHANGED <<nStart, proc, viol>>
   /\ UNCHANGED <<cfgVars, inbox, pend, out, invalSlot, termSlot, launched, alive, rootVars,
                  signalled, sigUsed, inVer, gen, rec, saw, outOf, notif, nChanges,
-                 nSkip, ready, failed, word>>
+                 nSkip, ready, failed, word, stale>>
 
 \* the script reads its inputs (environment step; happens whether or not the actor is at select)
 ScriptRead(t) ==
@@ -358,7 +360,7 @@ ScriptFinish(t) ==
         /\ UNCHANGED <<gen, outOf>>
   /\ UNCHANGED <<cfgVars, inbox, pend, out, invalSlot, termSlot, launched, alive, rootVars,
                  signalled, sigUsed, inVer, rec, cap, saw, notif, nChanges,
-                 nStart, nSkip, ready, failed, word, viol>>
+                 nStart, nSkip, ready, failed, word, viol, stale>>
 
 \* builder.rs:24-33  cancellation wins: kill, reap, report Cancelled
 BuildCancelled(t) ==
@@ -366,7 +368,7 @@ BuildCancelled(t) ==
   /\ st' = [st EXCEPT ![t].bpc = "done_cancel"]
   /\ proc' = [proc EXCEPT ![t] = @ - 1]
   /\ UNCHANGED <<cfgVars, inbox, pend, out, invalSlot, termSlot, launched, alive, rootVars, envVars,
-                 nStart, nSkip, ready, failed, word, viol>>
+                 nStart, nSkip, ready, failed, word, viol, stale>>
 
 \* incremental/mod.rs:44-63  compute / write the record
 BuildRecord(t) ==
@@ -388,13 +390,18 @@ BuildResult(t) ==
                       LET ex == ~s0.toExec
                       IN R([s0 EXCEPT !.executed = ex],
                            IF ex THEN ToSet(t, s0.reqB, "ok", "b", TRUE) ELSE <<>>)
+         \* a build that really re-ran has rebuilt outputs: whoever reaches it through aggregates must re-decide its run
+         marked == IF ph = "done_ok"
+                   THEN [u \in T |-> IF kind[u] # "a" /\ t \in EffDeps(u) THEN stale[u] \cup {t} ELSE stale[u]]
+                   ELSE stale
      IN /\ IF s.termSeen
            THEN /\ Emit(t, r0)
                 /\ alive' = [alive EXCEPT ![t] = FALSE]
-                /\ viol' = viol
+                /\ viol' = viol /\ stale' = marked
            ELSE /\ \E r \in LoopTop(t, r0) :
                      /\ Emit(t, r)
                      /\ viol' = viol \cup (IF r.begun /\ ~StartOK(t, word[t]) THEN {"StartSafe"} ELSE {})
+                     /\ stale' = IF r.begun THEN [marked EXCEPT ![t] = {}] ELSE marked
                 /\ alive' = alive
         /\ nSkip' = IF ph = "done_skip" THEN [nSkip EXCEPT ![t] = @ + 1] ELSE nSkip
         /\ ready' = IF ph \in {"done_skip", "done_ok"} THEN [ready EXCEPT ![t] = TRUE] ELSE ready
@@ -582,7 +589,7 @@ Init ==
   /\ notif = [t \in T |-> FALSE] /\ nChanges = 0
   /\ nStart = [t \in T |-> 0] /\ nSkip = [t \in T |-> 0]
   /\ ready = [t \in T |-> FALSE] /\ failed = [t \in T |-> FALSE]
-  /\ word = ZeroWord /\ proc = [t \in T |-> 0] /\ viol = {}
+  /\ word = ZeroWord /\ proc = [t \in T |-> 0] /\ viol = {} /\ stale = [t \in T |-> {}]
 
 Spec == Init /\ [][Next]_vars
 
@@ -642,6 +649,8 @@ UpToDate ==
      \A t \in C : ~Blocked(t) =>
         /\ kind[t] = "b" => outOf[t] = EffIn(t) /\ st[t].executed
         /\ kind[t] = "s" => st[t].executed /\ st[t].up
+        \* ... by a run decided after every build it reaches (through aggregates) finished its own re-run
+        /\ kind[t] # "a" => stale[t] = {}
 
 \* temporal properties (checked under fairness, see MC_Engine)
 Terminates == <>(rootPhase \in {"exited", "waitsig"})
